@@ -161,11 +161,24 @@ def check_pdb_layout(tag, text, want):
     return out
 
 
+def renumber_models(atoms, numbers):
+    """models keep their place in the table but carry the drawn numbers (ranked ensembles keep the original model
+    numbers: 3, 1, 2; selections: 7, 2): the MODEL serial is a label, nothing says it ascends"""
+    if not numbers:
+        return atoms
+    present = []
+    for a in atoms:
+        if a["model"] not in present:
+            present.append(a["model"])
+    ren = {m: numbers[k % len(numbers)] + (0 if k < len(numbers) else 100 * (k // len(numbers))) for k, m in enumerate(present)}
+    return [dict(a, model=ren[a["model"]]) for a in atoms]
+
+
 def oracle(case):
     import io
     from rnapolis.parser_v2 import parse_cif_atoms, parse_pdb_atoms, write_cif, write_pdb
 
-    atoms = case["atoms"]
+    atoms = renumber_models(case["atoms"], case.get("model_numbers"))
     single = len({a["model"] for a in atoms}) == 1
     pdb_text = atomtab.emit_pdb(atoms, always_model=True)
     cif_text = atomtab.emit_cif(atoms, case.get("null", "?"))
@@ -243,6 +256,7 @@ def oracle_splitter(case):
         # atom ids that run on from model to model (60000 per model): later models exceed the PDB serial width, the
         # first ones do not - every model that fits must still come out unchanged
         atoms = [dict(a, serial=a["serial"] + 60000 * (a["model"] - 1)) for a in atoms]
+    atoms = renumber_models(atoms, case.get("model_numbers"))
     os.makedirs(WORK_DIR, exist_ok=True)
     base = os.path.join(WORK_DIR, f"c09split_{os.getpid()}")
     shutil.rmtree(base, ignore_errors=True)
@@ -312,6 +326,8 @@ def classify(case):
         labs.append("icode")
     if len({a["model"] for a in atoms}) >= 2:
         labs.append("models>=2")
+        if case.get("model_numbers") and case["model_numbers"][:2] != sorted(case["model_numbers"][:2]):
+            labs.append("model-numbers-not-ascending")
     if len({a["chain"] for a in atoms}) >= 2:
         labs.append("chains>=2")
     if any(a["resseq"] < 0 or a["x"] < 0 for a in atoms):
@@ -323,13 +339,22 @@ def classify(case):
     return bool(labs), labs
 
 
+def _model_numbers():
+    from hypothesis import strategies as st
+
+    return st.sampled_from([None, None, None, [3, 1, 2], [2, 1, 3], [7, 2, 5], [10, 20, 30], [1, 3, 2], [5], [0, 1, 2]])
+
+
 def st_cases():
     from hypothesis import strategies as st
+
+    MODEL_NUMBERS = _model_numbers()
 
     dialect = st.one_of(st.none(), st.fixed_dictionaries({
         "drop": st.lists(st.sampled_from(["label_entity_id", "auth_atom_id", "auth_comp_id"]), max_size=3, unique=True),
         "order": st.one_of(st.none(), st.integers(0, 10 ** 6)), "label_alias": st.booleans()}))
-    return st.fixed_dictionaries({"atoms": atomtab.st_tables(max_residues=4, max_atoms=6), "null": st.sampled_from(["?", "."]), "dialect": dialect})
+    return st.fixed_dictionaries({"atoms": atomtab.st_tables(max_residues=4, max_atoms=6), "null": st.sampled_from(["?", "."]), "dialect": dialect,
+                                  "model_numbers": MODEL_NUMBERS})
 
 
 def plan(tier, seed):
@@ -346,7 +371,7 @@ def run_shard(spec) -> ShardResult:
         from hypothesis import strategies as st
 
         strat = st.fixed_dictionaries({"atoms": atomtab.st_tables(max_residues=3, max_atoms=4), "null": st.sampled_from(["?", "."]),
-                                       "format_in": st.sampled_from(["PDB", "mmCIF"]), "running_ids": st.booleans(),
+                                       "format_in": st.sampled_from(["PDB", "mmCIF"]), "running_ids": st.booleans(), "model_numbers": _model_numbers(),
                                        "format_out": st.sampled_from(["keep", "PDB", "mmCIF", "pdb", "mmcif"])})
         run_hypothesis(PROP_ID, strat, oracle_splitter, seed=spec["seed"], max_examples=spec["examples"], result=res,
                        classify=lambda c: (len({a["model"] for a in c["atoms"]}) >= 2, ["splitter", f"{c['format_in']}->{c['format_out'].lower()}"] + (["splitter-running-ids"] if c.get("running_ids") and c["format_in"] != "PDB" else [])),
